@@ -56,7 +56,11 @@ Drop == /\ s' = [s EXCEPT ![1] = <<>>] /\ p' = [p EXCEPT ![1] = @ + n1] /\ UNCHA
 Setz(k) == /\ s' = [s EXCEPT ![1] = <<>>] /\ p' = [p EXCEPT ![1] = @ + n1] /\ z' = [z EXCEPT ![1] = IF k = 0 THEN 1 ELSE k]
            /\ last' = Rec("setz", k, 0, 0, 0)
 
+\* traversal macros and the unchecked end accessors: read-only, judged on the recorded event
+Walk == UNCHANGED <<s, p, z>> /\ last' = Rec("walk", 0, 0, 0, 0)
+
 Next ==
+  \/ Walk
   \/ \E v \in Vals : InsertOp("push_back", HUGE, v) \/ InsertOp("push_fore", 0, v) \/ PushSort(v)
   \/ \E v \in Vals, i \in Idx : InsertOp("insert", i, v)
   \/ RemoveOp("pull_back", HUGE) \/ RemoveOp("pull_fore", 0)
